@@ -1,5 +1,5 @@
 (* C10 - expressions denoting the same Boolean function get the same verdict. *)
-From Spdx Require Import Props.Shipped Spec.Eval Proofs.Laws Proofs.Respell.
+From Spdx Require Import Props.Shipped Spec.Eval Proofs.Laws Proofs.Respell Proofs.Split Proofs.SpacesAnywhere.
 Local Open Scope list_scope.
 
 Theorem C10 e1 t1 e2 t2 A : parse T0 e1 = Ok t1 -> parse T0 e2 = Ok t2 -> (forall v, eval v t1 = eval v t2) ->
@@ -37,6 +37,16 @@ Theorem C10_spaces_parentheses s t sp1 sp2 :
   parse T0 (sp1 ++ s ++ sp2) = Ok t /\ parse T0 ("("%char :: s ++ [")"%char]) = Ok t.
 Proof. intros F1 F2 H. split; [apply (parse_pad T0 HT0); assumption|apply (parse_parens T0 HT0); assumption]. Qed.
 
+(* extra spaces ANYWHERE: in front of any byte c that is neither an id character nor a '+' (operators, parentheses, the
+   ':' of a DocumentRef, a space), any run of spaces may be inserted or removed without changing the parse - hence
+   neither the verdict of Satisfies nor the result of ExtractLicenses *)
+Theorem C10_spaces_anywhere a c b sp t : boundary a c -> c <> "+"%char -> Forall (fun ch => is_space ch = true) sp ->
+  (parse T0 (a ++ sp ++ c :: b) = Ok t <-> parse T0 (a ++ c :: b) = Ok t).
+Proof. exact (parse_extra_spaces T0 HT0 a c b sp t). Qed.
+Example C10_spaces_anywhere_example :
+  boundary (s2l "MIT") " "%char /\ parse T0 (s2l "MIT" ++ s2l "   " ++ " "%char :: s2l "AND (ISC)") = parse T0 (s2l "MIT AND (ISC)").
+Proof. split; [split; [reflexivity|discriminate]|vm_compute; reflexivity]. Qed.
+
 (* Satisfies("(E) AND (F)", A) = Satisfies(E, A) and Satisfies(F, A); likewise for OR - on the strings themselves *)
 Theorem C10_decomposition E F tE tF A : parse T0 E = Ok tE -> parse T0 F = Ok tF -> A <> [] -> Forall (entry_ok T0) A ->
   exists bE bF, satisfies T0 E A = Ok bE /\ satisfies T0 F A = Ok bF /\
@@ -56,5 +66,5 @@ Example C10_example :
 Proof. vm_compute. split; reflexivity. Qed.
 
 (* axioms the property theorems of this file depend on (one traversal for all of them) *)
-Definition C10_theorems := (@C10, @C10_laws, @C10_and_or, @C10_extract, @C10_spaces_parentheses, @C10_decomposition).
+Definition C10_theorems := (@C10, @C10_laws, @C10_and_or, @C10_extract, @C10_spaces_parentheses, @C10_spaces_anywhere, @C10_decomposition).
 Redirect "assumptions/C10" Print Assumptions C10_theorems.
